@@ -1,6 +1,6 @@
 (* C12: bounds, rejections and balance, derived from the accounting invariant of Proof/LimitsProof.v. *)
 From Coq Require Import List ZArith NArith Bool Arith Lia ZifyBool ZifyN ZifyNat.
-From FH Require Import Gen.GenC12 Model.Limits Proof.LimitsProof.
+From FH Require Import Gen.GenC12 Model.Limits Spec.LimitsSpec Proof.LimitsProof.
 Import ListNotations.
 Open Scope Z_scope.
 
@@ -11,9 +11,6 @@ Proof.
 Qed.
 
 (* ---- Concurrency ------------------------------------------------------------------------------------- *)
-Definition serving_sc (r : crec) : bool := is_serving r && match cvia r with VConn => true | _ => false end.
-Definition serving_loop (k : nat) (r : crec) : bool :=
-  is_serving r && match cvia r with VServe k' => Nat.eqb k' k | VConn => false end.
 
 Lemma serving_sc_le r : b2z (serving_sc r) <= w_sc r.
 Proof. unfold serving_sc, is_serving, w_sc. destruct (ph r), (cvia r); cbn; lia. Qed.
@@ -99,7 +96,6 @@ Lemma holds_unit_reach cf s : reach cf s -> Forall (holds_unit cf) (conns s).
 Proof. induction 1 as [|s l s' _ IH Hs]; [constructor|exact (holds_unit_step _ _ _ _ IH Hs)]. Qed.
 
 (* connections from one IPv4 address that are inside their request loop and not closed *)
-Definition served_from (ip : N) (r : crec) : bool := is_serving r && N.eqb (cip r) ip && negb (closed r).
 
 Lemma perip_bound cf s : reach cf s -> 0 < maxip cf -> forall ip, ip <> 0%N ->
   sumf (fun r => b2z (served_from ip r)) (conns s) <= maxip cf.
@@ -119,17 +115,6 @@ Lemma live_bound cf s : reach cf s -> 0 < maxip cf -> forall ip, n_live s ip <= 
 Proof. intros R. exact (i_live _ _ (inv_reach _ _ R)). Qed.
 
 (* ---- rejections ----------------------------------------------------------------------------------------- *)
-Definition rejected_with (code : Z) (r : crec) : Prop :=
-  resp r = code /\ closed r = true /\ ph r = PDone /\ reg r = false.
-
-(* the connection a label belongs to *)
-Definition label_conn (l : label) : option nat :=
-  match l with
-  | LServeStart | LServeStop _ | LWorkerRetire _ | LAccept _ _ | LServeConn _ => None
-  | LRegister c | LRejectIP c | LOpenInc c | LGetChOk c | LGetChFail c | LRejectDec c | LRejectConc c
-  | LTryAcquire c | LAcquireFail c | LStart c | LRequest c | LFinish c | LHijack c | LCleanupOpen c
-  | LCleanupConc c | LCloseAfter c | LWorkerRelease c | LReleaseConc c | LHijackDone c | LUserClose c => Some c
-  end.
 
 (* per-IP: an arrival from an address that already has MaxConnsPerIP live connections is answered 429 and closed,
    and the counters are what they were *)
@@ -211,3 +196,121 @@ Proof.
     split; [eapply nth_error_upd_same; eapply nth_error_upd_same; apply (nth_error_upd_same _ _ _ _ Hn)|].
     split; [repeat split|]. split; [lia|]. split; reflexivity.
 Qed.
+
+(* Concurrency through Serve: all workers of the loop's pool are busy *)
+Lemma reject_conc_serve cf s c r k lp : reach cf s -> nth_error (conns s) c = Some r -> ph r = POpened -> cvia r = VServe k ->
+  nth_error (loops s) k = Some lp -> ready lp <= 0 -> effConc cf <= wcount lp ->
+  step cf s (LGetChOk c) = None /\
+  exists s1 s2 s3 r3, step cf s (LGetChFail c) = Some s1 /\ step cf s1 (LRejectDec c) = Some s2 /\
+    step cf s2 (LRejectConc c) = Some s3 /\
+    nth_error (conns s3) c = Some r3 /\ rejected_with StatusServiceUnavailable r3 /\
+    concurrency s3 = concurrency s /\ open s3 = open s - 1 /\
+    (forall ip, perip s3 ip = if reg r && N.eqb ip (cip r) then norm (sumf (w_ip ip) (conns s) - 1) else perip s ip).
+Proof.
+  intros R Hn Hp Hv Hk Hr Hw. pose proof (inv_reach _ _ R) as I.
+  destruct r as [v ip0 rg cl p h rs]. cbn in Hp, Hv. subst p v.
+  assert (E1 : (0 <? ready lp) = false) by lia. assert (E2 : (wcount lp <? effConc cf) = false) by lia.
+  split; [cbn [step]; rewrite Hn; cbn [ph cvia]; rewrite Hk, E1, E2; reflexivity|].
+  cbn [step]. rewrite Hn. cbn [ph cip cvia closed hj resp reg]. rewrite Hk, E1, E2. cbn [orb].
+  destruct rg.
+  - eexists _, _, _, _. split; [reflexivity|]. unfold set_conns, set_ph. cbn [step conns].
+    rewrite (nth_error_upd_same _ _ _ _ Hn). cbn [ph cip cvia hj reg closed resp].
+    split; [reflexivity|]. cbn [step conns concurrency open perip loops serving].
+    rewrite (nth_error_upd_same _ c _ (mkC (VServe k) ip0 true cl PNoWorker h rs)) by (apply (nth_error_upd_same _ _ _ _ Hn)).
+    cbn [ph cip cvia hj reg closed resp]. unfold close_conn. cbn [reg cip cvia ph hj resp closed].
+    split; [reflexivity|]. cbn [conns concurrency open perip].
+    split; [eapply nth_error_upd_same; eapply nth_error_upd_same; apply (nth_error_upd_same _ _ _ _ Hn)|].
+    split; [repeat split|]. split; [lia|]. split; [reflexivity|]. intros ip. rewrite (unreg_spec cf s ip0 ip I). cbn [andb].
+    destruct (N.eqb ip ip0); [reflexivity|]. symmetry. apply (i_ip _ _ I).
+  - eexists _, _, _, _. split; [reflexivity|]. unfold set_conns, set_ph. cbn [step conns].
+    rewrite (nth_error_upd_same _ _ _ _ Hn). cbn [ph cip cvia hj reg closed resp].
+    split; [reflexivity|]. cbn [step conns concurrency open perip loops serving].
+    rewrite (nth_error_upd_same _ c _ (mkC (VServe k) ip0 false cl PNoWorker h rs)) by (apply (nth_error_upd_same _ _ _ _ Hn)).
+    cbn [ph cip cvia hj reg closed resp]. unfold close_conn. cbn [reg cip cvia ph hj resp closed].
+    split; [reflexivity|]. cbn [conns concurrency open perip].
+    split; [eapply nth_error_upd_same; eapply nth_error_upd_same; apply (nth_error_upd_same _ _ _ _ Hn)|].
+    split; [repeat split|]. split; [lia|]. split; reflexivity.
+Qed.
+
+(* ---- balance ---------------------------------------------------------------------------------------------- *)
+Lemma exact_accounting cf s : reach cf s ->
+  concurrency s = sumf w_conc (conns s) /\ open s = sumf w_open (conns s) /\
+  (forall ip, perip s ip = norm (sumf (w_ip ip) (conns s))) /\ serving s = n_running s.
+Proof. intros R. pose proof (inv_reach _ _ R) as I. repeat split; apply I. Qed.
+
+Lemma balance cf s : reach cf s -> all_terminal s = true ->
+  concurrency s = 0 /\ open s = 0 /\ (forall ip, perip s ip = None) /\ serving s = n_running s.
+Proof.
+  intros R Ht. pose proof (inv_reach _ _ R) as I. unfold all_terminal in Ht. rewrite forallb_forall in Ht.
+  assert (Hall : Forall (fun r => w_conc r = 0 /\ w_open r = 0 /\ forall ip, w_ip ip r = 0) (conns s)).
+  { pose proof (i_wf _ _ I) as Hwf. rewrite Forall_forall in *. intros r Hr. specialize (Ht _ Hr). specialize (Hwf _ Hr).
+    unfold terminal in Ht. destruct Hwf as (Hcr & _). unfold w_conc, w_open, w_ip.
+    destruct (ph r); try discriminate. repeat split. intros ip. rewrite (Hcr Ht). reflexivity. }
+  rewrite (i_conc _ _ I), (i_open _ _ I). repeat split.
+  - apply sumf_zero. eapply Forall_impl; [|exact Hall]. cbn. tauto.
+  - apply sumf_zero. eapply Forall_impl; [|exact Hall]. cbn. tauto.
+  - intros ip. rewrite (i_ip _ _ I). rewrite (sumf_zero (w_ip ip)); [reflexivity|].
+    eapply Forall_impl; [|exact Hall]. cbn. intros r (_ & _ & H). apply H.
+  - apply (i_serving _ _ I).
+Qed.
+
+(* what is left while hijacked connections are still held by their handlers: only their per-IP units *)
+
+Lemma balance_with_hijacked cf s : reach cf s -> all_done s = true ->
+  concurrency s = 0 /\ open s = 0 /\ forall ip, perip s ip = norm (sumf (w_ip ip) (conns s)).
+Proof.
+  intros R Ht. pose proof (inv_reach _ _ R) as I. unfold all_done in Ht. rewrite forallb_forall in Ht.
+  rewrite (i_conc _ _ I), (i_open _ _ I). repeat split.
+  - apply sumf_zero. apply Forall_forall. intros r Hr. specialize (Ht _ Hr). unfold w_conc. destruct (ph r); try discriminate. reflexivity.
+  - apply sumf_zero. apply Forall_forall. intros r Hr. specialize (Ht _ Hr). unfold w_open. destruct (ph r); try discriminate. reflexivity.
+  - apply (i_ip _ _ I).
+Qed.
+
+(* ---- the getters ------------------------------------------------------------------------------------------- *)
+Lemma getters_zero_at_quiescence cf s : reach cf s -> all_terminal s = true ->
+  get_concurrency s = 0 /\ get_open s = 0.
+Proof. intros R Ht. destruct (balance _ _ R Ht) as (H1 & H2 & _). auto. Qed.
+
+Lemma getters_nonneg cf s : reach cf s -> 0 <= get_concurrency s /\ 0 <= get_open s.
+Proof.
+  intros R. pose proof (inv_reach _ _ R) as I. unfold get_concurrency, get_open. rewrite (i_conc _ _ I), (i_open _ _ I). split.
+  - apply sumf_nonneg. intros r. unfold w_conc. destruct (ph r), (cvia r); lia.
+  - apply sumf_nonneg. intros r. unfold w_open. destruct (ph r); lia.
+Qed.
+
+(* a further Close on a connection that has been closed changes nothing *)
+Lemma close_idempotent cf s c r s' : nth_error (conns s) c = Some r -> closed r = true -> reg r = false ->
+  step cf s (LUserClose c) = Some s' ->
+  concurrency s' = concurrency s /\ open s' = open s /\ perip s' = perip s /\ conns s' = conns s /\ loops s' = loops s.
+Proof.
+  intros Hn Hc Hr Hs. cbn [step] in Hs. rewrite Hn in Hs. destruct r as [v ip0 rg cl p h rs]. cbn in Hc, Hr. subst rg cl.
+  unfold close_conn in Hs. cbn [ph reg cvia cip hj resp] in Hs.
+  assert (Hu : upd (conns s) c (mkC v ip0 false true p h rs) = conns s).
+  { clear Hs. revert c Hn. induction (conns s) as [|x l IH]; intros [|c] Hn; cbn in *; try discriminate; [congruence|]. f_equal. auto. }
+  destruct p; try discriminate Hs; injection Hs as <-; cbn; rewrite Hu; auto.
+Qed.
+
+(* ---- statements in the vocabulary of Spec/LimitsSpec.v ---------------------------------------------------------- *)
+Lemma concurrency_bound cf s : reach cf s -> documented_use s -> n_serving s <= effConc cf.
+Proof.
+  intros R [H|[H1 H2]]; [exact (serving_bound_serveconn_only _ _ R H)|exact (serving_bound_single_serve _ _ R H1 H2)].
+Qed.
+
+Lemma concurrency_bound_per_entry cf s : reach cf s ->
+  n_serving_sc s <= effConc cf /\ forall k, n_serving_loop s k <= effConc cf.
+Proof. exact (serving_per_entry cf s). Qed.
+
+Lemma concurrency_bound_needs_documented_use :
+  exists cf s, reach cf s /\ ~ documented_use s /\ effConc cf < n_serving s.
+Proof.
+  destruct serving_exceeds_with_two_serve_calls as (cf & tr & s & Hrun & R & Hc & Hn).
+  exists cf, s. split; [exact R|]. split; [|lia].
+  intros D. pose proof (concurrency_bound _ _ R D). lia.
+Qed.
+
+Lemma perip_bound' cf s : reach cf s -> 0 < maxip cf -> forall ip, ip <> 0%N -> n_served_from s ip <= maxip cf.
+Proof. exact (perip_bound cf s). Qed.
+
+Lemma balance' cf s : reach cf s -> all_terminal s = true ->
+  concurrency s = 0 /\ open s = 0 /\ perip_empty s /\ serving s = n_running s.
+Proof. exact (balance cf s). Qed.
